@@ -1,8 +1,10 @@
 //! One module per property.
 
+pub mod c01;
 pub mod c02;
 pub mod c03;
 pub mod c05;
+pub mod c07;
 pub mod c08;
 pub mod c09;
 pub mod c10;
@@ -17,10 +19,12 @@ use crate::{Args, Report};
 
 pub fn run(args: &Args) -> Report {
     match args.prop.as_str() {
+        "C01" => c01::run(args),
         "C02" => c02::run(args),
         "C03" => c03::run(args),
         "C05" => c05::run(args),
         "C06" => c05::run_c06(args),
+        "C07" => c07::run(args),
         "C08" => c08::run(args),
         "C09" => c09::run(args),
         "C10" => c10::run(args),
